@@ -31,12 +31,17 @@ pub struct TransportCfg {
     pub record_text: bool,
 }
 
+/// per-run budget of transport events: the step bound behind "never blocks / loops forever".
+/// The longest fault-free conversation of the quick workloads has ~260,000 events (evidence:
+/// maxima.transport.events_in_one_run); the bound is several times that.
+pub static EVENT_BUDGET: std::sync::atomic::AtomicU64 = std::sync::atomic::AtomicU64::new(1_200_000);
+
 impl Default for TransportCfg {
     fn default() -> Self {
         TransportCfg {
             benign: true,
             max_read_chunk: 64,
-            event_budget: 3_000_000,
+            event_budget: EVENT_BUDGET.load(std::sync::atomic::Ordering::Relaxed),
             record_text: false,
         }
     }
